@@ -81,6 +81,30 @@ def case_regression(N, Dw, Dy, sub, pdiag=False):
             u2 = m.hadamard(u2, m.slice(f, [int(i)]), False)
         l2 = m.query("log_integral", u2)
         fail_if(fails, PROPERTY, "evidence:order", "evidence depends on the order in which factors are multiplied", np.asarray(m.regs[l2]), np.asarray(m.regs[li]), tol=1e-7, params=params)
+        # (d) the same product through multiply() / '*' (single-component operands), with the prior's caches filled
+        m.query("log_integral", prior.reg)
+        for how in ("multiply-uf1", "multiply-uf0", "mul"):
+            u3 = m.multiply(prior.reg, fp, True) if how == "multiply-uf1" else (m.multiply(prior.reg, fp, False) if how == "multiply-uf0" else m.mul(prior.reg, fp))
+            if m.regs.get(u3) is None:
+                fails.append(failure(PROPERTY, f"posterior:{how}", f"raised: {m.impl[-1][1:]}", params=params)); continue
+            l3 = m.query("log_integral", u3)
+            check_post(m.query("get_density", u3), f"prior*likelihood:{how}")
+            fail_if(fails, PROPERTY, f"evidence:{how}", "evidence differs between the product routes", np.asarray(m.regs[l3]), np.asarray(m.regs[li]), tol=1e-7, params=dict(params, Nsum=N))
+        # (e) sequential updating where each step's posterior is obtained by normalising the product IN PLACE and is the
+        #     next step's prior; the evidence is the sum of the log-masses before each normalisation
+        cur = prior.reg
+        ev_norm = 0.0
+        for i in rng.permutation(N):
+            prod = m.hadamard(cur, m.slice(f, [int(i)]), bool(rng.integers(0, 2)))
+            ev_norm += float(np.asarray(m.regs[m.query("log_integral", prod)])[0])
+            m.query("normalize", prod)
+            lm = np.asarray(m.regs[m.query("log_integral", prod)])
+            fail_if(fails, PROPERTY, "posterior:normalize", "a normalised product does not have mass one", lm, np.zeros(1), tol=1e-7, params=params, signed_dev=True)
+            cur = prod
+        check_post(m.query("get_density", cur), "sequential-normalize")
+        if abs(ev_norm - got) > 1e-7 * max(1.0, abs(got)):
+            fails.append(failure(PROPERTY, "evidence:sequential-normalize", "evidence accumulated over normalised sequential products != evidence of the batch product",
+                                 expected=got, got=ev_norm, deviation=[ev_norm - got], params=dict(params, Nsum=N)))
         return fails
     return Case(label, fn)
 
